@@ -328,6 +328,9 @@ func (s *subSrv) emitPublishError(subID uint32) error {
 	if hp == nil {
 		return fmt.Errorf("no PublishRequest is waiting at the server")
 	}
+	// the client reacts with a reconnect within milliseconds: everything that is connected NOW is the old
+	// link (its late requests are ignored), the new connection must not be mistaken for it
+	s.linkCut()
 	resp := &ua.PublishResponse{ResponseHeader: scriptsrv.Header(hp.req, ua.StatusBadInternalError), SubscriptionID: 0,
 		AvailableSequenceNumbers: []uint32{}, NotificationMessage: &ua.NotificationMessage{PublishTime: time.Now(), NotificationData: []*ua.ExtensionObject{}},
 		Results: hp.results, DiagnosticInfos: []*ua.DiagnosticInfo{}}
